@@ -102,6 +102,11 @@ def run(res, tier, seed):
         rg = g.get(a / 1e9, b / 1e9)
         if [C.to_ns(t) for t in rg[2].t] != [ts[i] for i in exp] or list(rg.keys()) != [2, 7]:
             res.violations.append({"key": {"op": "TsGroup.get"}, "what": "TsGroup.get is not member-wise get", "input": {"ts": ts, "a": a, "b": b}})
+        for units, f in (("ms", 1e6), ("us", 1e3)):
+            rgu = g.get(a / f, b / f, time_units=units)
+            if [C.to_ns(t) for t in rgu[2].t] != [ts[i] for i in exp]:
+                res.violations.append({"key": {"op": "TsGroup.get", "units": units}, "what": "TsGroup.get in %s is not member-wise get" % units,
+                                       "input": {"ts": ts, "a": a, "b": b}})
     # trial tensors
     trial_sets = [e for e in G.canonical_isets(G.lattice(7, step=2 * U), 3) if e]
     tlines, tcases = [], []
